@@ -6,6 +6,7 @@ package pbuffer
 
 //@ property C19
 //@ func (*Pool).Get
+//@   params p c
 //@   mode bv
 //@   requires p != nil && pool.inv(p.pool) && p.pool.stepSize <= 1<<47 && 0 <= c && c <= 1<<47
 //@   requires SIall: forallint(i, forallv(x, *bytes.Buffer, forallint(s, pool.SI(p.pool, i, x, s))))
@@ -14,6 +15,7 @@ package pbuffer
 //@   ensures once: nemitted() <= 1
 
 //@ func (*Pool).Put
+//@   params p bts
 //@   mode bv
 //@   forall i0 int
 //@   forall x0 *bytes.Buffer
@@ -25,11 +27,13 @@ package pbuffer
 //@   ensures once: nemitted() <= 1
 
 //@ func New
+//@   params max
 //@   mode bv
 //@   requires max <= pmath.maxintHeadBit
 //@   ensures result != nil && pool.inv(result.pool)
 
 //@ func Get
+//@   params c
 //@   mode bv
 //@   requires 0 <= c && c <= 1<<47
 //@   assumes DefaultPool != nil && pool.inv(DefaultPool.pool) && DefaultPool.pool.stepSize <= 1<<47
@@ -38,6 +42,7 @@ package pbuffer
 //@   ensures capacity: result != nil && bufcap(result) >= c
 
 //@ func Put
+//@   params p
 //@   mode bv
 //@   forall i0 int
 //@   forall x0 *bytes.Buffer
